@@ -458,7 +458,18 @@ func rule106(r *core.Run) {
 			n++
 			a := c.Call.Args[i]
 			s := r.P.SliceOf(a, core.SliceOpts{Depth: -1})
-			okp := s.Has("field:net/url.URL.Path") && s.Has("call:strings.SplitN") && !s.Has("call:net/url.QueryUnescape") && !s.Has("call:strings.ToLower") && !s.Has("call:path.Clean")
+			okp := s.Has("field:net/url.URL.Path")
+			// the only transformation on the way is the strip of slashes and the split: no
+			// cleaning, unescaping, case folding or replacement (any splitting idiom is fine)
+			for cc := range s.Calls {
+				switch cn := r.P.CalleeName(cc); cn {
+				case "strings.Trim", "strings.TrimLeft", "strings.TrimRight", "strings.TrimPrefix", "strings.TrimSuffix":
+				default:
+					if pathTransformers[cn] {
+						okp = false
+					}
+				}
+			}
 			// object may be the empty constant when the path has one segment
 			r.Check(okp, "R10.6", key(fname(r, rb), "→"+cal.Name(), p.Name()), pos(r, c), "from the split URL path, untransformed", "the "+p.Name()+" passed to "+cal.Name()+" is not the untransformed segment of r.URL.Path")
 		}
